@@ -129,7 +129,7 @@ var noInitPkgs = map[string]bool{
 	"github.com/hanwen/go-fuse/v2/fuse": true, "github.com/hanwen/go-fuse/v2/fs": true,
 	"github.com/klauspost/compress/zstd": true, "compress/flate": true, "compress/gzip": false,
 	"github.com/containerd/stargz-snapshotter/fs/metrics/common": true,
-	"github.com/containerd/stargz-snapshotter/fs/metrics/layer": true,
+	"github.com/containerd/stargz-snapshotter/fs/metrics/layer":  true,
 }
 
 func (i *interpreter) ensureInit(pkg *ssa.Package) {
